@@ -16,7 +16,7 @@ as broken):
                `s.lower()`, other functions translated in the same module.
                numpy/pandas code read per element: `v[mask]`, `v[mask] op= e`, `tbl[mask, 'col'] = e`, `.values`,
                `.round()`, `.clip(a, b)`, `.abs()`, `.astype('int')`, `.isnull()`, `.fillna(v)`, `&`, `|`, `~`,
-               `np.log2` / `np.exp2` (oracles), NaN-propagating arithmetic on optional numbers
+               `np.log2` / `np.exp2` / `np.sqrt` (oracles: Section variables, in alphabetical order), NaN-propagating arithmetic on optional numbers
   parameters : (key, type[, coq name]) where key is a Python name, a dotted attribute or ANY source expression the
                function reads as an opaque input (e.g. "cnarr.chr_x_filter(diploid_parx_genome).values",
                "outarr['baf']"); `fragment={'first': prefix, 'last': prefix}` translates a contiguous statement range
@@ -311,7 +311,10 @@ class FnTranslator:
             args = [self.expr(a, env) for a in n.args]
             if f.attr == 'log2' and len(args) == 1:
                 self.oracles.add('log2')
-                return ('(log2 %s)' % self.toQ(args[0]), 'Q')
+                return self.lift(args, lambda vs: ('(log2 %s)' % self.toQ(vs[0]), 'Q'))
+            if f.attr == 'sqrt' and len(args) == 1:
+                self.oracles.add('sqrt')
+                return self.lift(args, lambda vs: ('(sqrt %s)' % self.toQ(vs[0]), 'Q'))
             if f.attr == 'exp2' and len(args) == 1:
                 self.oracles.add('exp2')
                 return ('(exp2 %s)' % self.toQ(args[0]), 'Q')
@@ -362,6 +365,8 @@ class FnTranslator:
                                  else ('(Z.abs %s)' % vs[0][0], 'Z'))
             if f.attr == 'clip' and len(args) == 2:
                 return self.lift([v, args[0], args[1]], lambda vs: self.clip(vs[0], vs[1], vs[2]))
+            if f.attr == 'fillna' and len(args) == 1 and v[1] in ('Q', 'Z'):
+                return v                                  # nothing is missing in a plain number
             if f.attr == 'fillna' and len(args) == 1 and v[1] in ('OQ', 'OZ'):
                 inner = self.new('fill')
                 if v[1] == 'OQ':
